@@ -205,6 +205,27 @@ def check(run):
     run.clause('R1 no closure, handler or packet field is filled by std::move of an object that a later iteration of the same loop moves again (moved-from reuse: only the first segment would carry its drop callback / only the first completion its handler)')
     nmv = engines.moved_in_loop(run, [f_ for f_ in fx.repo_functions() if f_.file.startswith(simlib.REPO_PREFIX + 'src/')])
     run.ok('R1', 'moved-from-in-loop', 'scan', '', 'std::move sites inside loops examined: %d' % nmv, nontrivial=False)
+    run.clause('the queue is configured with what it was given: every constructor parameter of sim::queue initialises a field (capacity, bandwidth and latency are not confused with each other: a parameter that is never used means another one was used twice)')
+    for ct in fx.fn('sim::queue::queue'):
+        if '&&' in ct.sig or 'const sim::queue &' in ct.sig or not ct.params:
+            continue
+        run.touch(ct)
+        used = {}
+        for it in ct.inits:
+            if is_node(it.get('e')):
+                for x_ in walk(it['e']):
+                    if x_['k'] == 'ref' and x_.get('dk') == 'param':
+                        used.setdefault(x_.get('name'), []).append(it.get('field'))
+        for x_ in (walk(ct.body) if ct.body else []):
+            if x_['k'] == 'ref' and x_.get('dk') == 'param':
+                used.setdefault(x_.get('name'), []).append('<body>')
+        for p_ in ct.params:
+            nm = p_.get('name')
+            if not nm:
+                continue
+            run.check(nm in used, 'R1', 'ctor-parameter-used', 'sim::queue::queue(%s)' % nm, ct.loc(),
+                      'the constructor never uses its parameter `%s` (fields initialised from the others: %s): the queue is built with a different argument in its place - e.g. the capacity taken from the bandwidth, so that "capacity 0 = unlimited" and the tail-drop threshold are wrong whenever the two differ'
+                      % (nm, {k: v for k, v in used.items()}), 'initialises %s' % (used.get(nm) or ''))
     run.clause('every packet that enters a queue is forwarded exactly once even when forwarding re-enters the same queue (half-duplex hop): the sender is never started twice (shared with C09)')
     import p09 as _p09
     _p09.reentrancy_rule(run)
